@@ -1,5 +1,64 @@
 package vapp
 
-func (g *Gen) txEth(kind string, hostile bool) STx { panic("unknown kind " + kind) }
+var EthKinds = []string{"ETH_LOCK", "ETH_LOCK", "ETH_REDEEM", "ETH_REPORT", "ETH_REPORT", "ETH_REPORT", "ETH_REPORT", "ETH_REPORT", "ETH_REPORT", "SEND"}
 
-func familyEth(family, id string, g *Gen, blocks, maxTx int) *Scenario { return nil }
+// the external transactions a history talks about: a small fixed pool so that reports find
+// their trackers and duplicates occur
+type extTx struct {
+	kind  string
+	owner string
+	amt   int64
+	n     int64
+}
+
+var extPool = []extTx{{"lock", "a1", 700, 1}, {"lock", "a2", 1200, 1}, {"lock", "a1", 700, 2}, {"redeem", "a2", 900, 1}, {"redeem", "a3", 400, 1}, {"redeem", "a1", 6000, 1}}
+
+func (g *Gen) txEth(kind string, hostile bool) STx {
+	t := TxReq{Kind: kind}
+	x := extPool[g.R.Intn(len(extPool))]
+	switch kind {
+	case "ETH_LOCK":
+		for x.kind != "lock" {
+			x = extPool[g.R.Intn(len(extPool))]
+		}
+		owner := x.owner
+		t.A = A{"owner": owner, "amt": x.amt, "n": x.n}
+	case "ETH_REDEEM":
+		for x.kind != "redeem" {
+			x = extPool[g.R.Intn(len(extPool))]
+		}
+		t.A = A{"owner": x.owner, "amt": x.amt, "n": x.n}
+	case "ETH_REPORT":
+		by := g.pick(g.vals)
+		if g.R.Intn(7) == 0 {
+			by = g.pick(g.accts) // an outsider reports
+		}
+		okv := 1
+		if g.R.Intn(3) == 0 {
+			okv = 0
+		}
+		locker := x.owner
+		if g.R.Intn(4) == 0 {
+			locker = g.pick(g.accts) // a witness lies about the beneficiary
+		}
+		t.A = A{"tkind": x.kind, "towner": x.owner, "tamt": x.amt, "tn": x.n, "by": by, "ok": okv, "locker": locker}
+		switch g.R.Intn(10) {
+		case 0:
+			t.A["idx"] = g.R.Intn(6) // a wrong (or out of range) index
+		case 1:
+			t.A["idx"] = 4
+		}
+	default:
+		panic("unknown kind " + kind)
+	}
+	return g.finish(t, hostile && g.hclass != "amt" && g.hclass != "cur")
+}
+
+func familyEth(family, id string, g *Gen, blocks, maxTx int) *Scenario {
+	switch family {
+	case "eth":
+		g.Hostile = 0.1
+		return g.Mixed(id, blocks, maxTx+2, EthKinds)
+	}
+	return nil
+}
